@@ -220,6 +220,7 @@ type C05Mask struct {
 	Mask  []bool `json:"mask"`
 	Root  string `json:"root"`
 	Rev   bool   `json:"rev"`
+	L     Layout `json:"layout,omitempty"` // a masked VIEW (mask given over the logical elements); zero: the plain root
 }
 
 func init() { register("C05.masked", func() Case { return &C05Mask{} }) }
@@ -233,18 +234,26 @@ func (c *C05Mask) NTKey() string {
 	if !any || all {
 		return ""
 	}
-	return fmt.Sprintf("%v|%v|%s|%v", c.Shape, c.Mask, c.Root, c.Rev)
+	return fmt.Sprintf("%v|%v|%s|%v|%v", c.Shape, c.Mask, c.Root, c.Rev, c.L)
 }
 
 func (c *C05Mask) Run() string {
 	arr := seqArr(dtInt16, c.Shape, 0)
-	b, err := Build(arr, Layout{Root: c.Root}, c.Mask)
+	l := c.L
+	if l.Root == "" {
+		l = Layout{Root: c.Root}
+	}
+	b, err := Build(arr, l, c.Mask)
 	if err != nil {
 		return inconclusive
 	}
 	t := b.T
+	if !t.IsMasked() {
+		return inconclusive
+	}
+	rec.Class("masked-layout:" + l.Kind())
 	n := len(arr.E)
-	desc := fmt.Sprintf("masked iterator over shape %v (%s) mask %v reverse=%v", c.Shape, c.Root, c.Mask, c.Rev)
+	desc := fmt.Sprintf("masked iterator over shape %v (%v) mask %v reverse=%v", c.Shape, l, c.Mask, c.Rev)
 	// logical position of a storage offset: the value stored there
 	window := backingVals(t.Data())
 	posOf := func(o int) int {
@@ -449,6 +458,18 @@ func TestC05(t *testing.T) {
 				return &C05AllMasks{Shape: shape, Root: root, N: n}
 			})
 		}
+	}
+	// masked views: the mask travels with the storage window of the view
+	for _, lk := range []string{"sliced", "stepsliced", "leadsliced", "lazyT", "picked", "slicedT", "cmraw+sliced"} {
+		lk := lk
+		cell(t, "C05", "C05.masked", "maskedview/"+lk, nCases(60, 2500), func(rt *rapid.T) Case {
+			shape := genShapeMin2(rt, 1, 3, 3, "s")
+			mask := make([]bool, prod(shape))
+			for i := range mask {
+				mask[i] = rapid.Bool().Draw(rt, "m")
+			}
+			return &C05Mask{Shape: shape, Mask: mask, Rev: rapid.IntRange(0, 3).Draw(rt, "rev") == 0, L: genLayoutKind(rt, lk, len(shape), "l")}
+		})
 	}
 	// multi-iterator
 	for _, nt := range []int{2, 3} {
